@@ -20,7 +20,7 @@ from ..analyses import (is_call, atoms_imply, path_to, exits_of, delta_analysis,
                         callback_kind)
 from .c11 import null_rule
 from . import h18
-from .h18 import view_of, path_key, var_name, INF
+from .h18 import view_of, path_key, var_name, INF, fn_value_sources
 
 ANCHOR_FILES = ('iv_main_posix.c', 'iv_fd.c', 'iv_fd_epoll.c', 'iv_fd_poll.c', 'iv_timer.c', 'iv_tls.c',
                 'iv_event_raw_posix.c', 'iv_fd_pump.c', 'iv_thread_posix.c', 'iv_event.c', 'iv_popen.c',
@@ -295,8 +295,8 @@ def _frame_stores(f, chained=False):
         if not (isinstance(r, dict) and r.get('k') == 'addr'):
             continue
         v = strip(r['e'])
-        if not (isinstance(v, dict) and v.get('k') == 'var' and v.get('vk') == 'local'):
-            continue
+        if not (isinstance(v, dict) and v.get('k') == 'var' and v.get('vk') in ('local', 'param')):
+            continue   # a parameter lives in the frame exactly like a declared local: `this->term = &this`
         l = strip(e['lhs'])
         if not (isinstance(l, dict) and l.get('k') == 'member'):
             continue
@@ -324,7 +324,8 @@ def _frame_cleared(f, e, vname=None):
     reached over an edge on which the published local itself reads NULL although this function never stores NULL into
     it: the holder wrote through the published pointer when it went away (the `*this->term = NULL` protocol)"""
     l = strip(e['lhs'])
-    lc = canon(e['lhs'])
+    # `(*&v)->f` (written by a helper that was handed &v, helper inlined) is `v->f`
+    lc = canon(h18.deref_norm(None, e['lhs']))
     self_nulled = vname is None or any(
         x['ev'] == 'store' and strip(x['lhs']).get('k') == 'var' and var_name(x['lhs']) == vname and 'rhs' in x
         and canon(x['rhs']) in ('NULL', '0') for x in f.events())
@@ -334,7 +335,7 @@ def _frame_cleared(f, e, vname=None):
             return False
         if s is None:
             return None
-        if x['ev'] == 'store' and canon(x['lhs']) == lc:
+        if x['ev'] == 'store' and canon(h18.deref_norm(None, x['lhs'])) == lc:
             rr = strip(x.get('rhs')) if 'rhs' in x else None
             return not (isinstance(rr, dict) and rr.get('k') == 'addr')
         return s
@@ -444,7 +445,7 @@ def dead_frames(ctx):
     prog = ctx.prog
     for f in sorted(prog.all_funcs(), key=lambda f: f.q):
         done = {}
-        own = {d['name'] for d in f.events() if d['ev'] == 'decl'}
+        own = {d['name'] for d in f.events() if d['ev'] == 'decl'} | {p_['name'] for p_ in f.params if p_.get('name')}
         sites = [(f, e, v) for (e, v) in _frame_stores(f)]
         hands_on = any(e['ev'] == 'call' and e.get('callee') and e['callee'] not in PRIMITIVES
                        and any(_addr_of_local(a, n) for a in e.get('args', []) for n in own)
@@ -457,7 +458,7 @@ def dead_frames(ctx):
             except AnalysisBroken:
                 pass
         for (h, e, v) in sites:
-            lc = canon(e['lhs'])
+            lc = canon(h18.deref_norm(None, e['lhs']))
             link = last_member(e['lhs']) in LIST_LINKS and _is_list_head_var(v)
             check = (lambda fn_, ev_: _list_drained(fn_, ev_, v['name'])) if link else (lambda fn_, ev_: _frame_cleared(fn_, ev_, v['name']))
             ok = check(h, e)
@@ -534,8 +535,13 @@ def _tainted(g, kind):
     while changed:
         changed = False
         for e in g.events():
-            if e['ev'] == 'store' and e.get('op') == '=' and strip(e['lhs']).get('k') == 'var' and 'rhs' in e:
-                nm, k = strip(e['lhs'])['name'], kind(e['rhs'], tainted)
+            if e['ev'] != 'store' or e.get('op') != '=' or 'rhs' not in e:
+                continue
+            l = strip(e['lhs'])
+            if l.get('k') != 'var':
+                l = h18.plain_lhs(e['lhs'])          # `*&v = x`: the inlined form of a result handed back through an out-parameter
+            if l is not None and l.get('k') == 'var':
+                nm, k = l['name'], kind(e['rhs'], tainted)
                 if k and tainted.get(nm) != k:
                     tainted[nm] = k
                     changed = True
@@ -1040,6 +1046,58 @@ def _kernel_count(V, u, arr, seen=(), pt=None):
     return False
 
 
+def _ptr_type(x):
+    t = str((x or {}).get('type') or '').replace('const ', '').replace('volatile ', '').strip()
+    return t if t.endswith('*') else None
+
+
+def _ptr_walk(V, idx, pt):
+    """idx is the element distance `p - b` of a walking pointer from a base: every definition of the plain local p that
+    reaches the point either sets it to the value of b or steps it upwards (so p - b >= 0), b is not changed, both have
+    one pointer type (the distance counts elements), and an atom `p < E` holds with E = b + n.  Yields (n, point at which
+    n was read): the index lies in [0, n)."""
+    x = strip(strip_load(idx) if isinstance(idx, dict) else idx)
+    if not (isinstance(x, dict) and x.get('k') == 'bin' and x.get('op') == '-'):
+        return []
+    p_, b_ = strip(strip_load(x['l'])), strip(strip_load(x['r']))
+    if not (isinstance(p_, dict) and isinstance(b_, dict) and V.is_plain_local(p_)):
+        return []
+    if _ptr_type(p_) is None or _ptr_type(p_) != _ptr_type(b_ if b_.get('k') == 'var' else {'type': b_.get('type')}):
+        return []
+    ds = V.defs_at(p_['name'], pt)
+    sets = 0
+    for d in ds:
+        op = d.get('op')
+        if op == '=' and 'rhs' in d and _same_unchanged_value(V, d['rhs'], b_):
+            sets += 1
+        elif op == '++':
+            pass
+        elif op == '+=' and 'rhs' in d and V.range(d['rhs'], (d['_b'], d['_i']))[0] >= 0:
+            pass
+        else:
+            return []
+    if not sets:
+        return []
+    out = []
+    for (u, ue) in _upper_terms(V, p_, pt):
+        upt = pt
+        y = strip(strip_load(ue))
+        if isinstance(y, dict) and y.get('k') == 'var':
+            d = V.sole_def(y)
+            if d is None:
+                continue
+            y, upt = strip(strip_load(d['rhs'])), (d['_b'], d['_i'])
+        if isinstance(y, dict) and y.get('k') == 'bin' and y.get('op') == '+':
+            for (bb, nn) in ((y['l'], y['r']), (y['r'], y['l'])):
+                b0 = strip(strip_load(bb))
+                at_base = isinstance(b0, dict) and b0.get('k') == 'var' and b0.get('name') == p_['name'] and \
+                    all(d.get('op') == '=' and 'rhs' in d and _same_unchanged_value(V, d['rhs'], b_) for d in V.defs_at(p_['name'], upt)) \
+                    and bool(V.defs_at(p_['name'], upt))            # `stop = p + n` taken while p still stands at the base
+                if (at_base or _same_unchanged_value(V, bb, b_)) and _ptr_type({'type': y.get('type')}) in (None, _ptr_type(p_)):
+                    out.append((nn, upt, u))
+    return out
+
+
 def _fmt(v):
     return '-inf' if v == -INF else 'inf' if v == INF else str(int(v))
 
@@ -1062,6 +1120,10 @@ def prove_subscript(prog, V, site):
     if bound is not None:
         if lo >= 0 and hi < bound:
             return ('value range of the index [%s, %s] lies inside the constant bound %d' % (_fmt(lo), _fmt(hi), bound), '')
+        for (n_, npt, u) in _ptr_walk(V, idx, pt):
+            if V.range(n_, npt)[1] <= bound:
+                return ('element distance of a pointer walking upwards from the base and below %s = base + %s, with %s <= %d'
+                        % (u, canon(n_), canon(n_), bound), '')
         return (None, 'index `%s` ranges over [%s, %s], array bound is %d; facts here: %s' % (ic, _fmt(lo), _fmt(hi), bound, facts or 'none'))
     arr = V.array_id(ix['base'])
     ctr = slot_counter(prog)
@@ -1104,11 +1166,19 @@ def prove_subscript(prog, V, site):
         for (u, ue) in _upper_terms(V, idx, pt):
             if lo >= 0 and _counter_valued(V, ue, ctr, (), pt):
                 return ('loop index in [0, %s) with %s the number of occupied slots' % (u, u), '')
+        for (n_, npt, u) in _ptr_walk(V, idx, pt):
+            if _counter_valued(V, n_, ctr, (), npt):
+                return ('element distance of a pointer that walks upwards from the base and is below %s = base + %s, %s the number of '
+                        'occupied slots: the index lies in [0, %s)' % (u, canon(n_), canon(n_), canon(n_)), '')
         return (None, 'index `%s` of a slot array is neither a guarded slot index, nor the slot counter, nor a loop index below it; facts here: %s'
                 % (ic, facts or 'none'))
     for (u, ue) in _upper_terms(V, idx, pt):
         if lo >= 0 and _kernel_count(V, ue, arr, (), pt):
             return ('loop index in [0, %s) with %s the count the kernel returned for this very array' % (u, u), '')
+    for (n_, npt, u) in _ptr_walk(V, idx, pt):
+        if _kernel_count(V, n_, arr, (), npt):
+            return ('element distance of a pointer walking upwards from the base and below %s = base + %s, the count the kernel '
+                    'returned for this very array' % (u, canon(n_)), '')
     return (None, 'no constant bound, occupied-slot count or kernel-returned count bounds index `%s` (range [%s, %s]); facts here: %s'
             % (ic, _fmt(lo), _fmt(hi), facts or 'none'))
 
@@ -1224,6 +1294,38 @@ def _is_array_size_of(V, ln, dst):
     return isinstance(el, dict) and el.get('k') in ('index', 'deref') and var_name(el.get('base') if el.get('k') == 'index' else el.get('e')) == d['name']
 
 
+def _same_unchanged_value(V, a, b):
+    """a and b denote one value: followed through single-assignment locals (a helper's parameter in a calling context, a
+    caching local) they meet in the same single-assignment local, or in the same expression none of whose operands is
+    written anywhere in the code in view"""
+    def chain(x):
+        out = []
+        x = strip(strip_load(x) if isinstance(x, dict) else x)
+        while isinstance(x, dict) and len(out) < 10:
+            out.append(x)
+            d = V.sole_def(x)
+            if d is None:
+                break
+            x = strip(strip_load(d['rhs']))
+        return out
+    ca, cb = chain(a), chain(b)
+    for x in ca:
+        for y in cb:
+            if canon(x) != canon(y):
+                continue
+            if V.sole_def(x) is not None:
+                return True
+            if not h18._pure_path(x):
+                continue
+            keys = h18._mem_keys(x)
+            written = [s for s in V.g.events() if s['ev'] == 'store' and
+                       (set(lvalue_steps(s['lhs'])) | ({('var', var_name(s['lhs']))} if strip(s['lhs']).get('k') == 'var' else set())
+                        | ({('var', h18.plain_lhs(s['lhs'])['name'])} if h18.plain_lhs(s['lhs']) is not None else set())) & keys]
+            if not written:
+                return True
+    return False
+
+
 def prove_write(prog, V, e):
     nm = e.get('callee')
     pt = (e['_b'], e['_i'])
@@ -1268,11 +1370,8 @@ def prove_write(prog, V, e):
     if nel is None:
         if unit == 'elems' and _is_array_size_of(V, ln, dst):
             return ('the kernel is given ARRAY_SIZE(%s) as the capacity of %s' % (canon(d), canon(d)), '')
-        if unit == 'elems' and sym is not None and canon(strip(V.resolve(ln))) == canon(strip(sym)):
-            keys = h18._mem_keys(sym)
-            written = [s for s in V.g.events() if s['ev'] == 'store' and (set(lvalue_steps(s['lhs'])) | ({('var', var_name(s['lhs']))} if strip(s['lhs']).get('k') == 'var' else set())) & keys]
-            if not written:
-                return ('the capacity given is the very expression the array was sized with', '')
+        if unit == 'elems' and sym is not None and _same_unchanged_value(V, ln, sym):
+            return ('the capacity given is the very value the array was sized with', '')
         return (None, 'capacity `%s` is not the element count of the variable-length array `%s`' % (canon(ln), canon(d)))
     if unit == 'bytes':
         if esz is None:
@@ -1422,8 +1521,13 @@ def tls_hooks(ctx):
     ti = prog.fn('iv_tls_thread_init')
 
     def walks(f, hk):
+        # the hook of this phase is called: an indirect call whose function value can only have been read from the
+        # field `hk` of a registration record (directly, or through locals / a selection whose condition is a
+        # constant in this calling context -- one walker shared by both phases with a `setup` parameter)
         g = Inliner(prog).inline(f)
-        calls = any(e['ev'] == 'call' and last_member(e.get('fnexpr')) == ('iv_tls_user', hk) for e in g.events())
+        V = view_of(prog, g)
+        calls = any(e['ev'] == 'call' and 'fnexpr' in e and fn_value_sources(V, e['fnexpr'], (e['_b'], e['_i'])) == {('iv_tls_user', hk)}
+                    for e in g.events())
         return calls and lst in list_heads(g, prog.unit_of(f))
     ctx.ob('R-C18i', 'iv_tls_thread_deinit:visits-every-user', walks(td, 'deinit_thread') and walks(ti, 'init_thread'), loc=td.loc,
            detail='thread init and tear-down both walk the list registration appends to (%s)' % '.'.join(str(x) for x in lst), fn=td.q)
@@ -2173,7 +2277,8 @@ def _closed_before_free(prog, V, site, rec, path, guards, n=2):
     def edge(blk, si, S):
         if not blk.term or blk.term.get('cond') is None or len(blk.succ) != 2 or blk.term.get('cls') in ('SwitchStmt', 'MethodDispatch'):
             return S
-        allat = h18._cond_atoms(blk.term['cond'], si == 0)
+        # `*&v` (a result handed back through an out-parameter, helper inlined) is v
+        allat = h18._cond_atoms(h18.deref_norm(V, blk.term['cond']), si == 0)
         if any(a[0] == 'const' and a[1] == 'False' for a in allat):
             return None
         atoms = [(a[0], a[1], a[2]) for a in allat if a[0] != 'const']
